@@ -538,3 +538,100 @@ def state_between_calls(outer, inner):
                                                                    set(a.arg for a in outer.args.args) | {getattr(outer.args.vararg, 'arg', None), getattr(outer.args.kwarg, 'arg', None)}):
             out.append(('mutated', base.id, n))
     return out
+
+
+def shared_class_containers(model, classes):
+    """[(class, attribute, method FuncInfo, node)]: a mutable container bound at class level (dict / list / set literal or
+    constructor) in one of `classes` that some method of the hierarchy mutates through self - directly (self.A.update(...),
+    self.A[k] = v, self.A += ...) or through a local alias (s = self.A; s.update(...)) - without the instance ever getting
+    its own (no `self.A = ...` store in any method).  Such state is shared by every instance of the class."""
+    out = []
+    attrs = {}
+    for k in classes:
+        for st in k.node.body:
+            if isinstance(st, ast.Assign) and len(st.targets) == 1 and isinstance(st.targets[0], ast.Name):
+                v = st.value
+                if isinstance(v, (ast.Dict, ast.List, ast.Set)) or (isinstance(v, ast.Call) and isinstance(v.func, ast.Name) and v.func.id in ('dict', 'list', 'set', 'defaultdict', 'OrderedDict')):
+                    attrs[st.targets[0].id] = k
+    if not attrs:
+        return out
+    rebound = set()
+    for k in classes:
+        for m in k.methods.values():
+            sn = selfname_of(m)
+            for n in ast.walk(m.node):
+                if isinstance(n, ast.Attribute) and isinstance(n.ctx, ast.Store) and isinstance(n.value, ast.Name) and n.value.id == sn and n.attr in attrs:
+                    rebound.add(n.attr)
+    for k in classes:
+        for m in k.methods.values():
+            sn = selfname_of(m)
+            alias = {}
+            for st in stmts_of(m.node):
+                if isinstance(st, ast.Assign) and len(st.targets) == 1 and isinstance(st.targets[0], ast.Name) and isinstance(st.value, ast.Attribute) \
+                        and isinstance(st.value.value, ast.Name) and st.value.value.id == sn and st.value.attr in attrs:
+                    alias[st.targets[0].id] = st.value.attr
+            for n in ast.walk(m.node):
+                base = None
+                if isinstance(n, ast.Call) and isinstance(n.func, ast.Attribute) and n.func.attr in _MUTATORS:
+                    base = n.func.value
+                elif isinstance(n, ast.Subscript) and isinstance(n.ctx, (ast.Store, ast.Del)):
+                    base = n.value
+                elif isinstance(n, ast.AugAssign):
+                    base = n.target
+                while isinstance(base, ast.Subscript):
+                    base = base.value
+                a = None
+                if isinstance(base, ast.Attribute) and isinstance(base.value, ast.Name) and base.value.id == sn and base.attr in attrs:
+                    a = base.attr
+                elif isinstance(base, ast.Name) and base.id in alias:
+                    a = alias[base.id]
+                if a is not None and a not in rebound:
+                    out.append((attrs[a], a, m, n))
+    return out
+
+
+def escaping_mutable_defaults(fnode):
+    """[(parameter, how, node)] for parameters whose default is a mutable literal / constructor call and which the function
+    stores into an attribute, puts into a container, returns, or mutates in place (also from a nested function): the one
+    default object is then shared by every call that omits the argument"""
+    a = fnode.args
+    params = a.posonlyargs + a.args
+    defs = [None] * (len(params) - len(a.defaults)) + list(a.defaults)
+    cand = {}
+    for p_, d in list(zip(params, defs)) + list(zip(a.kwonlyargs, a.kw_defaults)):
+        if d is not None and (isinstance(d, (ast.List, ast.Dict, ast.Set)) or (isinstance(d, ast.Call) and isinstance(d.func, ast.Name) and d.func.id in ('list', 'dict', 'set', 'Monitor', 'defaultdict'))):
+            cand[p_.arg] = d
+    if not cand:
+        return []
+    out = []
+    rebound_first = set()
+    # a parameter that is unconditionally rebound to a fresh object before any use is harmless: not modelled (conservative)
+    for n in ast.walk(fnode):
+        if isinstance(n, ast.Assign):
+            v = n.value
+            if isinstance(v, ast.Name) and v.id in cand:
+                for tg in n.targets:
+                    if isinstance(tg, ast.Attribute):
+                        out.append((v.id, 'stored as %s' % unparse(tg), n))
+                    elif isinstance(tg, ast.Subscript):
+                        out.append((v.id, 'stored into %s' % unparse(tg)[:30], n))
+        elif isinstance(n, ast.Return) and isinstance(n.value, ast.Name) and n.value.id in cand:
+            out.append((n.value.id, 'returned', n))
+        elif isinstance(n, ast.Call) and isinstance(n.func, ast.Attribute) and n.func.attr in _MUTATORS:
+            base = n.func.value
+            while isinstance(base, ast.Subscript):
+                base = base.value
+            if isinstance(base, ast.Name) and base.id in cand:
+                out.append((base.id, 'mutated by .%s()' % n.func.attr, n))
+            for arg in n.args:
+                if isinstance(arg, ast.Name) and arg.id in cand and n.func.attr in ('append', 'add', 'insert', 'setdefault'):
+                    out.append((arg.id, 'put into a container', n))
+        elif isinstance(n, ast.Subscript) and isinstance(n.ctx, (ast.Store, ast.Del)):
+            base = n.value
+            while isinstance(base, ast.Subscript):
+                base = base.value
+            if isinstance(base, ast.Name) and base.id in cand:
+                out.append((base.id, 'item store', n))
+        elif isinstance(n, ast.AugAssign) and isinstance(n.target, ast.Name) and n.target.id in cand:
+            out.append((n.target.id, 'augmented in place', n))
+    return out
